@@ -1,7 +1,134 @@
-/- C17 — statements under construction -/
+/-
+  C17 — Outputs are a deterministic function of the input files.
+
+  The model (`remap`, `assembliesFused`, …) is a pure function of the parsed inputs, so "same inputs, same outputs" holds
+  of it by construction.  The one place where the real code consults an iteration order that is NOT a function of the
+  input files is `for tag in fragment_tags` in `ScaffoldNamer.make_scaffold_name`: `fragment_tags` is a Python `set` of
+  `str`, whose iteration order depends on PYTHONHASHSEED.  The model fixes one order (`Scaffold.fragmentTags`); the
+  theorems here show that this choice is immaterial: `makeScaffoldName` returns the same value (the same namer, or the
+  same error) for every ordering of the tag set, and `labelScaffold` reads the scaffold tag set only through membership.
+
+  FINDING (false without the side condition, reproduced on the real code): with an EMPTY tag in the set the result
+  depends on the order.  `"a\tb\t\tHap1"`-style AGP lines (two consecutive tabs; `line.split("\t")` keeps the empty field)
+  give the tag set {"", "Hap1"}: order ["", "Hap1"] succeeds (haplotype "Hap1"), order ["Hap1", ""] raises TaggingError,
+  because `if haplotype:` treats the haplotype "" obtained from the empty tag as "not set".  See `empty_tag_order_dependent`.
+-/
 import AgpTpf.Model.Cache
 import AgpTpf.Model.Outputs
 import AgpTpf.Model.Remap
+import AgpTpf.Proofs.C17
+import AgpTpf.Proofs.C09
 namespace AgpTpf.C17
-theorem placeholder : True := trivial
+open AgpTpf
+
+/-- **Hash-seed independence of `make_scaffold_name`.**  For a namer whose haplotype dictionary holds no empty spelling
+    (`NamerOk`, an invariant of every reachable namer: `namerOk_init`, `namerOk_makeScaffoldName`, `namerOk_labelScaffold`)
+    and a tag collection without the empty tag, any reordering of the tags gives the *same* result: the same error, or
+    `.ok` of the same namer — all fields, including `haplotypeLc` with its insertion order (a second haplotype-looking tag
+    or a second chromosome-name tag is an error in either order).  `Nodup` of the tags is not needed. -/
+theorem make_scaffold_name_perm (n : Namer) (scName : Str) (rows : List Row) (tags₁ tags₂ : List Str)
+    (hp : tags₁.Perm tags₂) (hne : [] ∉ tags₁) (hn : NamerOk n) :
+    makeScaffoldName n scName rows tags₁ = makeScaffoldName n scName rows tags₂ := by
+  rw [makeScaffoldName_eq, makeScaffoldName_eq, foldlM_scanTag_perm (n, {}) tags₁ tags₂ hp hne hn]
+
+/-- The form asked for: both runs fail with the same error, or both succeed with namers agreeing on every field the
+    rest of the pipeline reads. -/
+theorem make_scaffold_name_perm_fields (n : Namer) (scName : Str) (rows : List Row) (tags₁ tags₂ : List Str)
+    (hp : tags₁.Perm tags₂) (hne : [] ∉ tags₁) (hn : NamerOk n) :
+    (∃ e, makeScaffoldName n scName rows tags₁ = .error e ∧ makeScaffoldName n scName rows tags₂ = .error e) ∨
+    (∃ n₁ n₂, makeScaffoldName n scName rows tags₁ = .ok n₁ ∧ makeScaffoldName n scName rows tags₂ = .ok n₂ ∧
+      n₁.currentScaffoldName = n₂.currentScaffoldName ∧ n₁.currentRank = n₂.currentRank ∧
+      n₁.currentHaplotype = n₂.currentHaplotype ∧ n₁.targetTags = n₂.targetTags ∧
+      n₁.primaryHaplotype = n₂.primaryHaplotype ∧ n₁.unlocN = n₂.unlocN ∧ n₁.unlocScaffolds = n₂.unlocScaffolds ∧
+      n₁.haplotigN = n₂.haplotigN ∧ n₁.haplotigScaffolds = n₂.haplotigScaffolds ∧
+      n₁.autosomePrefix = n₂.autosomePrefix ∧ n₁.haplotypeLc = n₂.haplotypeLc) := by
+  rw [← make_scaffold_name_perm n scName rows tags₁ tags₂ hp hne hn]
+  cases h : makeScaffoldName n scName rows tags₁ with
+  | error e => exact .inl ⟨e, rfl, rfl⟩
+  | ok n₁ => exact .inr ⟨n₁, n₁, rfl, rfl, rfl, rfl, rfl, rfl, rfl, rfl, rfl, rfl, rfl, rfl, rfl⟩
+
+/-- The underlying fact: two loop bodies commute, as `Except` values. -/
+theorem scan_tag_commutes (st : Namer × TagScan) (a b : Str) (ha : a ≠ []) (hb : b ≠ []) (hs : NamerOk st.1) :
+    (scanTag st a >>= fun st' => scanTag st' b) = (scanTag st b >>= fun st' => scanTag st' a) :=
+  scanTag_comm st a b ha hb hs
+
+/-! ### the invariant is met by every reachable namer -/
+
+theorem namerOk_init (prefix_ : Str) : NamerOk { autosomePrefix := prefix_ } := by
+  intro kv h; cases h
+
+theorem namerOk_makeScaffoldName (n n' : Namer) (scName : Str) (rows : List Row) (tags : List Str)
+    (hne : [] ∉ tags) (hn : NamerOk n) (h : makeScaffoldName n scName rows tags = .ok n') : NamerOk n' :=
+  makeScaffoldName_ok n n' scName rows tags hne hn h
+
+theorem labelScaffold_haplotypeLc (n n' : Namer) (o o' : OverlapResult) (sid : Nat) (frag : Fragment)
+    (scTags : List Str) (orig : Str) (h : labelScaffold n o sid frag scTags orig = .ok (n', o')) :
+    n'.haplotypeLc = n.haplotypeLc := by
+  rw [C09.labelScaffold_eq] at h
+  repeat' split at h
+  all_goals first | (cases h; rfl) | cases h
+
+theorem namerOk_labelScaffold (n n' : Namer) (o o' : OverlapResult) (sid : Nat) (frag : Fragment)
+    (scTags : List Str) (orig : Str) (hn : NamerOk n)
+    (h : labelScaffold n o sid frag scTags orig = .ok (n', o')) : NamerOk n' := by
+  unfold NamerOk
+  rw [labelScaffold_haplotypeLc n n' o o' sid frag scTags orig h]
+  exact hn
+
+/-! ### `label_scaffold` reads the scaffold tag set only through membership -/
+
+/-- Two orderings of the Pretext scaffold's tag set give the same namer and the same labelled result, except for the
+    stored `originalTags` (the set itself). -/
+theorem label_scaffold_tag_order (n : Namer) (o : OverlapResult) (sid : Nat) (frag : Fragment) (t₁ t₂ : List Str)
+    (orig : Str) (hm : ∀ x, x ∈ t₁ ↔ x ∈ t₂) :
+    labelScaffold n o sid frag t₂ orig =
+      (labelScaffold n o sid frag t₁ orig).map (fun p => (p.1, { p.2 with originalTags := some t₂ })) := by
+  have h1 : t₁.contains sTarget = t₂.contains sTarget := by
+    rw [Bool.eq_iff_iff]; simp [hm]
+  have h2 : t₁.contains sPainted = t₂.contains sPainted := by
+    rw [Bool.eq_iff_iff]; simp [hm]
+  rw [C09.labelScaffold_eq, C09.labelScaffold_eq]
+  simp only [C09.preTag, C09.labelled, h1, h2]
+  repeat' split
+  all_goals rfl
+
+/-! ### non-vacuity and the counterexamples -/
+
+def hap1 : Str := ['H','a','p','1']
+def hap2 : Str := ['H','a','p','2']
+def ctg : Row := .frag { name := ['c','t','g','1'], start := 1, stop := 100, strand := 1 }
+def n0 : Namer := { autosomePrefix := ['S','U','P','E','R','_'] }
+
+def isOk {α} : R α → Bool
+  | .ok _ => true
+  | .error _ => false
+
+/-- hypotheses satisfiable, with a run that succeeds and changes the namer non-trivially -/
+example : [hap1, sPainted, sTarget, ['X']].Perm [['X'], sTarget, hap1, sPainted] ∧
+    [] ∉ [hap1, sPainted, sTarget, ['X']] ∧ NamerOk n0 ∧
+    (makeScaffoldName n0 ['S','c','1'] [ctg] [hap1, sPainted, sTarget, ['X']]).toOption.map
+        (fun n => (n.currentScaffoldName, n.currentRank, n.currentHaplotype, n.targetTags)) =
+      some (some ['X'], 2, some hap1, true) ∧
+    (makeScaffoldName n0 ['S','c','1'] [ctg] [hap1, sPainted, sTarget, ['X']]).toOption.map (·.haplotypeLc) =
+      some [(['h','a','p','1'], hap1)] := by
+  refine ⟨?_, by decide, namerOk_init _, by decide, by decide⟩
+  decide
+
+/-- … and one where both orders fail (two haplotype-looking tags) -/
+example : isOk (makeScaffoldName n0 [] [ctg] [hap1, hap2]) = false ∧
+    isOk (makeScaffoldName n0 [] [ctg] [hap2, hap1]) = false := by decide
+
+/-- COUNTEREXAMPLE without `[] ∉ tags`: the tag set {"", "Hap1"} succeeds in one order and raises TaggingError in the
+    other (confirmed on the real `ScaffoldNamer.make_scaffold_name`). -/
+theorem empty_tag_order_dependent :
+    isOk (makeScaffoldName n0 [] [ctg] [[], hap1]) = true ∧
+    isOk (makeScaffoldName n0 [] [ctg] [hap1, []]) = false := by decide
+
+/-- COUNTEREXAMPLE without `NamerOk n` (not reachable in the real code, shows the hypothesis is used): a dictionary
+    that spells "hap1" as "" makes the order of {"Hap1", "Hap2"} matter. -/
+theorem bad_namer_order_dependent :
+    isOk (makeScaffoldName { n0 with haplotypeLc := [(['h','a','p','1'], [])] } [] [ctg] [hap1, hap2]) = true ∧
+    isOk (makeScaffoldName { n0 with haplotypeLc := [(['h','a','p','1'], [])] } [] [ctg] [hap2, hap1]) = false := by
+  decide
+
 end AgpTpf.C17
